@@ -120,6 +120,8 @@ def families(prop: str, tier: str, seed: int) -> List[Dict[str, Any]]:
     s += g.gen_cli(seed, 200 * k)
     if prop in ("C02", "C05", "C07", "C01"):
         s += g.gen_sync_drain(seed, 120 * k)
+    if prop in ("C06", "C07", "C10", "C12"):
+        s += g.gen_inmem(seed, 160 * k)
     if prop in ("C03", "C04"):
         from engine import flow
         s += [dict(x, noconf=True) for x in flow.gen_flow_large(seed, 150 * k)]   # conformance of these: TraceFlow (FlowAbs)
